@@ -54,22 +54,31 @@ def lat_unlinked(with_fault=True, fault_first=False):
                                "par": ["p.2", "p.1"]}},
         "dataset": {"d1": {"megacomplex": ["m1"], "scale": "s.1"}, "d2": {"megacomplex": ["m2"]}},
         "dataset_groups": {"default": {"residual_function": "variable_projection", "link_clp": False}},
-        "clp_relations": [{"source": "a", "target": "c", "parameter": "r.1", "interval": [(0, 1)]}],
+        "clp_relations": [{"source": "a", "target": "c", "parameter": "e.a", "interval": [(0, 1)]}],
         "clp_constraints": [{"type": "zero", "target": "b", "interval": [(2, 2)]}],
         "clp_penalties": [{"type": "equal_area", "source": "a", "source_intervals": [(0, 3)], "target": "b", "target_intervals": [(0, 3)],
                            "parameter": "r.2", "weight": 2.0}],
     }
-    params = {"p": [["1", 1.0], ["2", 2.0], ["3", 0.5]], "s": [["1", 2.0]], "r": [["1", 0.5], ["2", 1.5]]}
+    # e.a -> e.b -> p.3: an expression chain declared BEFORE its operands (two levels), used as relation parameter
+    params = {"e": [["a", {"expr": "$e.b * 1.0"}], ["b", {"expr": "$p.3 + 0.0"}]],
+              "p": [["1", 1.0], ["2", 2.0], ["3", 0.5]], "s": [["1", 2.0]], "r": [["2", 1.5]]}
     t1, g1 = np.arange(5.0), np.arange(4.0)
     t2, g2 = np.arange(4.0), np.arange(3.0)
     d1 = (np.outer(t1 + 1, g1 + 2) % 7) + (np.outer(t1, g1) % 3)
     d2 = (np.outer(t2 + 2, g2 + 1) % 5) + 1.0
     w1 = 1.0 + (np.outer(t1, g1) % 2)
-    data = {"d1": dataset(d1, t1, g1, weight=w1), "d2": dataset(d2, t2, g2)}
+    # d1 is stored (spectral, time), C-ordered, with a weight: the provider must not alias (and then weight in place) the caller's array
+    d1ds = xr.Dataset({"data": (("spectral", "time"), np.ascontiguousarray(np.asarray(d1, dtype=float).T)),
+                       "weight": (("spectral", "time"), np.ascontiguousarray(np.asarray(w1, dtype=float).T))},
+                      coords={"time": t1, "spectral": g1})
+    data = {"d1": d1ds, "d2": dataset(d2, t2, g2)}
     if with_fault:
         _fault_part(spec, params, data, fault_first)
     sch = _scheme(spec, params, data)
-    return sch, _points(sch, [[0.25, -0.5, 0.125], [-0.125, 0.25, 1.0]])
+    # third point: a finite-difference sized step from the first one (4e-6 relative): expression chains must follow it
+    labels, pts = _points(sch, [[0.25, -0.5, 0.125], [0.0]])
+    pts[2] = pts[0] * (1.0 + 4e-6)
+    return sch, (labels, pts)
 
 
 def lat_linked(with_fault=True, fault_first=True):
